@@ -321,8 +321,12 @@ def cli_cross_check(case, o, cnt):
                     (b"can only hold up to 65535 bytes" in r["stderr"] or any(e[1] == "value-out-of-bounds" for e in r["events"])):
                 cnt["cli_container_limit_reported"] = cnt.get("cli_container_limit_reported", 0) + 1
                 return out
-            out.append({"what": f"API outcome {o.cls} but CLI exit {r['exit']} banner={r['internal_error']}; stderr tail {r['stderr'][-200:]!r}",
-                        "case": {k: v for k, v in case.items()}})
+            v = {"what": f"API outcome {o.cls} but CLI exit {r['exit']} banner={r['internal_error']}; stderr tail {r['stderr'][-200:]!r}",
+                 "case": {k: v for k, v in case.items()}}
+            if r["internal_error"] and (b"MemoryError" in r["stderr"][-400:] or b"OverflowError" in r["stderr"][-400:]):
+                # the listed finding: a fill of hundreds of megabytes that this process could still allocate and the child could not
+                v["known_key"] = "astronomic-integer"
+            out.append(v)
     finally:
         shutil.rmtree(scratch, ignore_errors=True)
     return out
